@@ -168,6 +168,49 @@ Section Repl.
     let d := diff (effective_last remote_index last) (view st) remote in
     let updated := fetch_updated (ids (d_ups d)) (isort remote) in
     upsert_all stamp (issued updated) (delete_all (issued (d_del d)) st).
+  (* ---- what the idealised rounds above leave out, modelled where the code was seen to differ ---- *)
+
+  (* (1) Two snapshots of the primary.  The list (ACL.TokenList / PolicyList) and the batch read of the
+     objects to upsert (ACL.TokenBatchRead / PolicyBatchRead) are two stale-allowed RPCs that different
+     servers of the primary may answer: [batch] is what the second one sees.  [acl_round] is the case
+     batch = remote.  (Roles are upserted from the list itself; for policies ensureRemoteConsistent
+     rejects an older batch; tokens have no such guard.) *)
+  Definition acl_round_two (stamp remote_index last : N) (remote batch st : list item) : list item :=
+    let d := diff (effective_last remote_index last) (view st) remote in
+    let updated := fetch_updated (ids (d_ups d)) (isort batch) in
+    upsert_all stamp (issued updated) (delete_all (issued (d_del d)) st).
+
+  (* (2) Writes the state store refuses.  Policies and roles carry a second unique key, their Name
+     (state/acl.go aclPolicySetTxn / aclRoleSetTxn: "A policy with name %q already exists").  The name
+     is part of the content: [name_of body].  UpdateLocalBatch is ONE state-store transaction over the
+     upserts in id order: the first refused object aborts all of it, the deletions (earlier log
+     entries) stay applied, the round returns an error and the replicated index is not advanced. *)
+  Variable name_of : N -> option N.
+
+  Definition holds_name (n : N) (x : item) : bool :=
+    match name_of (it_body x) with Some m => N.eqb m n | None => false end.
+
+  Definition name_conflict (y : item) (st : list item) : bool :=
+    match name_of (it_body y) with
+    | None => false
+    | Some n => existsb (fun x => negb (keqb (it_id x) (it_id y)) && holds_name n x) st
+    end.
+
+  Fixpoint upsert_batch (stamp : N) (us : list item) (st : list item) : option (list item) :=
+    match us with
+    | [] => Some st
+    | y :: us' => if name_conflict y st then None else upsert_batch stamp us' (upsert stamp y st)
+    end.
+
+  (* the round as the store lets it happen: (table afterwards, did the round succeed) *)
+  Definition acl_round_store (stamp remote_index last : N) (remote st : list item) : list item * bool :=
+    let d := diff (effective_last remote_index last) (view st) remote in
+    let updated := fetch_updated (ids (d_ups d)) (isort remote) in
+    let st1 := delete_all (issued (d_del d)) st in
+    match upsert_batch stamp (issued updated) st1 with
+    | Some st2 => (st2, true)
+    | None => (st1, false)
+    end.
 End Repl.
 
 Arguments Item {K H}.
@@ -180,6 +223,13 @@ Definition acl_applies (k : bytes) : bool := true.
 Definition acl_item := @item bytes bytes.
 Definition acl_diff := @diff bytes bytes bytes_eqb bytes_ltb bytes_is_empty bytes_eqb.
 Definition acl_round_m := @acl_round bytes bytes bytes_eqb bytes_ltb bytes_is_empty bytes_eqb acl_applies.
+Definition acl_round_two_m := @acl_round_two bytes bytes bytes_eqb bytes_ltb bytes_is_empty bytes_eqb acl_applies.
+(* the harness keeps the name of a policy / role in bits 20..22 of the content number: 0 = a name derived
+   from the id (never shared), k > 0 = the shared name number k *)
+Definition acl_name_of (body : N) : option N :=
+  let k := ((body / 1048576) mod 8)%N in if N.eqb k 0 then None else Some k.
+Definition acl_round_store_m :=
+  @acl_round_store bytes bytes bytes_eqb bytes_ltb bytes_is_empty bytes_eqb acl_applies acl_name_of.
 
 (* config entries: key = (kind, name), hash = uint64 *)
 Definition ckey := (bytes * bytes)%type.
